@@ -99,7 +99,10 @@ def toric2d_tie(rep, work, recs):
     lines = ['From Coq Require Import ZArith List Bool.\nImport ListNotations.\nFrom PQ Require Import Toric2D.\nLocal Open Scope Z_scope.\n']
     for r in items:
         sup = '[' + '; '.join(pl([it[1] for it in op]) for op in r['stab_ops']) + ']'
-        lines.append('Eval vm_compute in table_matches %d %d %s %s %s.\n' % (r['size'][0], r['size'][1], pl(r['qubits']), pl(r['stab_coords']), sup))
+        lg = [pl([it[1] for it in op]) for op in r['lx_ops'] + r['lz_ops']]
+        lines.append('Eval vm_compute in table_matches %d %d %s %s %s && %s.\n' % (
+            r['size'][0], r['size'][1], pl(r['qubits']), pl(r['stab_coords']), sup,
+            ('logicals_match %d %d %s' % (r['size'][0], r['size'][1], ' '.join(lg))) if len(lg) == 4 else 'false'))
     f = os.path.join(work, 'c01_toric2d.v')
     open(f, 'w').write(''.join(lines))
     rc, o, e, dt = coqc_many([f])[f]
